@@ -1077,8 +1077,11 @@ def _angle_parts(a):
     for m, co in a.p.items():
         if m == ONE:
             c0 = co
-        elif len(m) == 1 and m[0][1] == 1 and co.denominator == 1 and abs(co) <= 4:
-            parts.append((int(co), m[0][0]))
+        elif len(m) == 1 and m[0][1] == 1 and abs(co) <= 4.5 and \
+                abs(co - round(co)) <= Fr(1, 10 ** 12) and round(co) != 0:
+            # integer multiple of an angle atom (a coefficient within 1e-12 of an integer,
+            # e.g. (1/(2 pi)) * (2 pi) in float, is snapped)
+            parts.append((int(round(co)), m[0][0]))
         else:
             return None
     return c0, parts
@@ -1158,6 +1161,12 @@ def _trig_atoms(a0):
         c.add_axiom(z3.Implies(z3.And(az > HP, az < 3 * HP), cv < 0))
         c.add_axiom(z3.Implies(az == 0, z3.And(cv == 1, sv == 0)))
         c.trig_atoms.append((a0, ci, si))
+        # an *input* angle: remember its circle point so that a model's (cos, sin) - which
+        # is what every computation used - determines the replayed angle value
+        if len(a0.p) == 1:
+            (m, co), = a0.p.items()
+            if len(m) == 1 and m[0][1] == 1 and co == 1 and c.atom_keys[m[0][0]][0] == 'var':
+                c.angle_inputs[c.atom_keys[m[0][0]][1]] = (cv, sv)
     return (SymReal({((ci, 1),): Fr(1)}), SymReal({((si, 1),): Fr(1)}))
 
 
